@@ -26,7 +26,7 @@ for p in props:
         na.append({"property_id":pid,"reason":na_reason.get(pid) or "check not built yet in this round; planned per DESIGN.md section 6 (model-based, TLA+), no other technique substituted"})
 m={
  "version":1,
- "setup_cmd":"cd /verif/harness && cargo build --offline -p vh -p fontc --bins",
+ "setup_cmd":"cd /verif/harness && (cargo build --offline -p vh -p fontc --bins --keep-going; test -x target/debug/vh -a -x target/debug/fontc)",
  "hooks":{"guard":"fontc_verif","enable":"RUSTFLAGS --cfg fontc_verif, set by /verif/harness/.cargo/config.toml (the harness workspace builds /repo's crates by path)",
           "baseline_off_cmd":"cd /repo && cargo test --workspace --no-fail-fast --offline",
           "source_commits":json.load(open('/verif/checks/hook_commits.json')),
